@@ -189,8 +189,8 @@ def configs(tier):
              inst(3, [w("foo")], "counter", scope="sA2"), inst(4, [w("baz")], "hist", scope="sB"),
              inst(5, [w("foo")], "counter", scope="sA3"), inst(6, [w("qux")], "updown", scope="sA3")]
     add("scopes", [opts(s, **o) for s in SCHEMES for o in (dict(), dict(noScope=True))], templ, vals=(1,),
-        maxinst=3 if th else 2, maxrec=3 if th else 2, maxscr=2, scopes=[sa2, sa3], mark=False,
-        ases=[[], aset(attr([w("k")], "v"))], recas=(1, 2) if th else (1,))
+        maxinst=2, maxrec=3 if th else 2, maxscr=2, scopes=[sa2, sa3], mark=False,
+        ases=[[], aset(attr([w("k")], "v"))], recas=(1,))
     # ---- exemplars: measurements inside sampled spans; the view filters attributes out of the stream, they become
     # exemplar labels: small / exactly at Prometheus' 128-rune limit (63 for trace_id + span_id) / over it
     xua = [w("x"), sep("."), w("ua")]
@@ -206,8 +206,8 @@ def configs(tier):
     eopts = [dict(), dict(noScope=True, noTarget=True), dict(resConst=True, resKeys=[1])]
     ekinds = ["counter", "hist", "gauge", "exphist"] + (["fcounter", "fhist", "updown"] if th else [])
     add("exemplars", [opts(s, **o) for s in SCHEMES for o in (eopts if th else eopts[:2])],
-        [inst(1, [w("foo")], k, "s") for k in ekinds], ases=eases, recas=range(1, len(eases) + 1), vals=(3, 7, 12) if th else (3, 12),
-        maxrec=2, maxscr=2 if th else 1, spans=(True, False) if th else (True,), budget=None if th else 1500)
+        [inst(1, [w("foo")], k, "s") for k in ekinds], ases=eases, recas=range(1, len(eases) + 1), vals=(3, 12),
+        maxrec=2, maxscr=1, spans=(True, False) if th else (True,), budget=None if th else 1500)
     # ---- values: what is exposed equals what the SDK aggregated, per kind
     vkinds = ["counter", "updown", "gauge", "hist", "exphist", "fcounter", "ocounter", "ogauge", "fhist", "oupdown"]
     if th:
